@@ -1,6 +1,7 @@
 package props
 
 import (
+	"github.com/henrylee2cn/goutil"
 	"context"
 	"fmt"
 	"strings"
@@ -466,7 +467,9 @@ func runC20System(t *testing.T, seed uint64, m *Mask, opt world.Options, r *simr
 			unknownPushSaw[string(c.PeekMeta("Pk"))] = string(c.InputBodyBytes())
 			return nil
 		})
-		cli := e.NewPeer("cli", erpc.PeerConfig{})
+		// the caller keeps per-call data in the swap of its call (a tracing plugin would): it is the call's own for
+		// as long as the caller holds the command, whatever the pooled context that read the reply does next
+		cli := e.NewPeer("cli", erpc.PeerConfig{}, &c20Tracer{})
 		pf := world.ProtoFunc(proto)
 		var sessions []erpc.Session
 		var conns []*simnet.Conn
@@ -481,6 +484,7 @@ func runC20System(t *testing.T, seed uint64, m *Mask, opt world.Options, r *simr
 			}
 		}
 		type call struct {
+			cmd  erpc.CallCmd
 			tag  string
 			ok   bool
 			code int32
@@ -504,6 +508,7 @@ func runC20System(t *testing.T, seed uint64, m *Mask, opt world.Options, r *simr
 			}
 			cmd := sessions[i%len(sessions)].Call("/dirty/mess", &world.Payload{Tag: c.tag, Data: "d"}, res, st...)
 			simrt.Yield()
+			c.cmd = cmd
 			c.ok = cmd.StatusOK()
 			if !c.ok {
 				c.code = cmd.Status().Code()
@@ -582,6 +587,18 @@ func runC20System(t *testing.T, seed uint64, m *Mask, opt world.Options, r *simr
 			if c.ok && (c.res.Tag != c.tag || c.res.Data != "clean-"+c.tag) {
 				e.Fail("C20/reply-carries-previous-users-body", "call %s got result %q", c.tag, c.res.String())
 			}
+			// the swap of the completed call still holds what the caller's plugin put there and nothing that any
+			// later user of a pooled context stored
+			if w, ok := c.cmd.(interface{ Swap() goutil.Map }); ok && c.cmd != nil {
+				if v, _ := w.Swap().Load("c20-trace"); v != "trace-of-"+c.tag {
+					e.Fail("C20/completed-call-swap-changed", "call %s: the swap of the completed call holds trace=%v, its plugin stored %q", c.tag, v, "trace-of-"+c.tag)
+				}
+				for _, k := range []string{"handler-left-this", "plugin-left-this"} {
+					if v, ok := w.Swap().Load(k); ok {
+						e.Fail("C20/completed-call-swap-changed", "call %s: the swap of the completed call holds %s=%v, stored by a later user of a pooled context", c.tag, k, v)
+					}
+				}
+			}
 			if !c.ok && (c.code < 3000 || c.code > 3010) && c.code != 0 {
 				e.Fail("C20/unexpected-status", "call %s: code %d", c.tag, c.code)
 			}
@@ -590,4 +607,15 @@ func runC20System(t *testing.T, seed uint64, m *Mask, opt world.Options, r *simr
 	})
 	rep.Sample = rep.Cell
 	return finish(rep, out)
+}
+
+// c20Tracer is a caller-side plugin that keeps per-call data in the call's swap.
+type c20Tracer struct{}
+
+func (c20Tracer) Name() string { return "c20-tracer" }
+func (c20Tracer) PreWriteCall(c erpc.WriteCtx) *erpc.Status {
+	if mk := c.Output().Meta().Peek("Mk"); len(mk) > 0 {
+		c.Swap().Store("c20-trace", "trace-of-"+string(mk))
+	}
+	return nil
 }
